@@ -1105,7 +1105,7 @@ func main() {
 			"bytearrays: <=4 items, lengths {0,1,255,256,65536}, every Reserve order x every WriteItem order (1 call, 1 call with 2 buffers, 2 calls per item), 4 variants (offset 0/7, explicit/implicit FinishReservation): Item(i) equals the bytes written in write order, Length equals bytes written; " +
 			"strings: every multiset (multiplicity 0..3) over the string alphabet, 3 repetitions (tie order is map-order dependent): table.Lookup(builder.Lookup(s)) == s, indices distinct and in range, Equal exact; " +
 			"uint64map: every layout x every ID sequence of length 0..4 x 4 variants (tag pattern, payload lengths incl. 0/127/128/300, write order, offset; a 5th with 16384/70000-byte payloads for <=2 entries): FindFirst / FindFirstWithTag / FillTagged for every written ID, their one-bit neighbours and every alphabet ID; Begin and EachItem(1 goroutine) visit every written ID exactly once with exactly its entries (multiset). " +
-			"concurrent-writers (engine E3, encoding package rewritten for the controlled scheduler): 2 (thorough: 3) goroutines perform every partition of 2..3 (thorough 4) WriteItem calls on 1-2 items of a ByteArraysBuilder and of 2 (thorough 2..4) calls on 1-2 IDs (same bucket / different buckets) of a Uint64MapBuilder, every interleaving at the builders' and the buffer's lock operations, no bound: every item / ID reads back as exactly the multiset of payloads written to it. " +
+			"concurrent-writers (engine E3, encoding package rewritten for the controlled scheduler): 2 goroutines perform every partition of 2..3 (thorough 4) WriteItem calls on 1-2 items of a ByteArraysBuilder and of 2 (thorough 2..3) calls on 1-2 IDs; thorough also 3 goroutines with 3 calls and at most 2 preemptions (same bucket / different buckets) of a Uint64MapBuilder, every interleaving at the builders' and the buffer's lock operations, no bound: every item / ID reads back as exactly the multiset of payloads written to it. " +
 			"Non-trivial = at least one value/item/string/entry written; every enumerated input is distinct by construction (counted per case), string multisets by canonical key.",
 		Assumptions: []string{
 			"concurrent writers: code between two lock operations runs atomically (controlled scheduler); callback errors belong to C28/C27",
